@@ -11,6 +11,13 @@ import AsynqModel.Lib.Contexts
       `_accept_error`, `_resume_contexts`, `TaskScheduler._continue_with_task`, `_execute`, `wait_for`, `value()`;
     * a `return` / an exception of the body travels through the open blocks the same way before the task completes.
 
+  A body may also IGNORE the GeneratorExit (`swallowsGX`, third audit of the core, item 2): the suspension point of the
+  body is `try: yield item / except GeneratorExit: yield`, in a sub-generator that the frames holding the with-blocks delegate
+  to (`yield from`, the shape of the harness body harness/checks/ctxhist.py `seq`).  `close()` of that sub-generator raises
+  `RuntimeError('generator ignored GeneratorExit')`; the interpreter raises it in the delegating frames at the `yield from`,
+  so it travels through the open with-blocks like any exception (every `__exit__` runs, an `__exit__` that raises replaces
+  it) and leaves `generator.close()` of the task - ONE raising hook is enough to let an exception out.
+
   The first `nb` contexts are the with-blocks of the body (`with c0: ... with c1: ...`, entered in this order while the task
   runs; `exit c` of the innermost one leaves it normally); the contexts from `nb` on are operated manually as before.
 -/
@@ -24,8 +31,11 @@ structure StW where
   stale : Bool := false     -- the task was failed while suspended: the batch of the item it awaited stays in
                             -- `TaskScheduler._batches`, unflushed (scheduler.py never unschedules a batch; the OPEN C08 finding)
   /-- `AsyncTask._computed` swallows what `generator.close()` raises (NOT what async_task.py does today; the proposed
-      repair after-fix/close-raise.diff) -/
+      repair proposed-fixes/C08-close-raise.diff) -/
   closeSwallows : Bool := false
+  /-- the body ignores GeneratorExit at its suspension points and yields again: `generator.close()` raises
+      `RuntimeError('generator ignored GeneratorExit')` (token `Exc.other`) through the open with-blocks -/
+  swallowsGX : Bool := false
   deriving Repr, DecidableEq
 
 def initW (defs : List Kind) (nvars nb : Nat) : StW := { s := init defs nvars, nb := nb }
@@ -41,10 +51,15 @@ def unwind (cfg : Cfg) (defs : List Kind) : List Nat → St → List Call → Op
     | (s', cl, _) => unwind cfg defs rest s' (calls ++ cl) fl
 
 /-- AsyncTask._accept_error for a task whose generator is suspended at a `yield`: the outcome is stored
-    (futures.py set_error), then `_computed` closes the generator; what an `__exit__` raises meanwhile ESCAPES -/
+    (futures.py set_error), then `_computed` closes the generator; what an `__exit__` raises meanwhile ESCAPES, and so
+    does the RuntimeError for a body that ignores the GeneratorExit.  `closeSwallows` is the ONLY thing that keeps an
+    exception of `close()` in: that the repaired model lets nothing out is true by construction of this line -/
 def acceptErrorW (cfg : Cfg) (defs : List Kind) (w : StW) (e : Exc) : StW × List Call × Option Exc :=
   if w.s.status != .none then (w, [], none) else
-    match unwind cfg defs w.blocks { w.s with status := .err e, phase := .done } [] none with
+    -- what is in flight while the blocks are left: the GeneratorExit (nothing the caller of close() will see), or the
+    -- RuntimeError of a body that ignored the GeneratorExit
+    match unwind cfg defs w.blocks { w.s with status := .err e, phase := .done } []
+        (if w.swallowsGX then some .other else none) with
     | (s', calls, esc) => ({ w with s := s', blocks := [] }, calls, if w.closeSwallows then none else esc)
 
 /-- AsyncTask._pause_contexts (async_task.py:391-407) -/
